@@ -110,9 +110,16 @@ func (w *w1) cleanAlways(fn *ssa.Function, i int, d int) bool {
 // failingReturn: a return whose results say "failed" (constant false, or a
 // constant non-OK status): the caller must not commit (C09.A1) and Abort
 // discards the cached object (C09.A2).
+// okResult: functions whose boolean result means "the step succeeded"
+// (frozen by reading; Read's boolean is eof, bmap's is "allocated").
+var okResult = map[string]bool{
+	"(*inode.Inode).Write": true, "dir.AddName": true, "dir.RemName": true, "dir.InitDir": true,
+	"dir.MkRootDir": true, "dir.AddNameDir": true, "dir.RemNameDir": true,
+}
+
 func failingReturn(r *ssa.Return) bool {
 	for _, res := range r.Results {
-		if b, ok := constBool(res); ok && !b {
+		if b, ok := constBool(res); ok && !b && okResult[FuncName(r.Parent())] {
 			return true
 		}
 		if k, ok := constInt(res); ok && k != 0 && isNamedStatus(res.Type()) {
